@@ -11,6 +11,7 @@ Import ListNotations.
 
 Inductive call :=
 | CPut (id : bytes) (chunks : list bytes) (tm : Z)   (* Put of concat chunks, read in these pieces *)
+| CPutR (id : bytes) (rd : reader) (tm : Z)          (* Put from an arbitrary (misbehaving) source; runner only *)
 | CGet (id : bytes)
 | CGetBytes (id : bytes)
 | CGetFile (id : bytes).
@@ -58,6 +59,7 @@ Variable H : bytes -> bytes.
 Definition call_prog (c : call) : prog cres :=
   match c with
   | CPut id chunks tm => bind (put_prog H id (honest_reader chunks) tm) (fun r => Ret (XPut r))
+  | CPutR id rd tm => bind (put_prog H id rd tm) (fun r => Ret (XPut r))
   | CGet id => bind (get_prog id) (fun r => Ret (XGet r))
   | CGetBytes id => bind (get_bytes_prog H id) (fun r => Ret (XBytes r))
   | CGetFile id => bind (get_file_prog id) (fun r => Ret (XFile r))
